@@ -1,5 +1,6 @@
 """C13 - a move chain is a faithful, reversible record of the game."""
 from . import chainrules, witness
+from .common import sim_rules
 
 
 def run(ctx):
@@ -16,6 +17,16 @@ def run(ctx):
     ]
     ctx.not_decided += ["that the current position equals the replay of the accepted moves: follows from L1-L3 with C03/C04 (per-step "
                         "exactness of make/unmake), not established separately"]
+    ctx.decided += [
+        "L2u what pop (and the rollback of a refused push) relies on: do_unmake_move, interpreted on the abstract post-state of every kind and "
+        "colour, ends exactly in the pre-state - squares, every colour/piece occupancy set, hash, rights, mark, counters (= C04/K1-K2); so "
+        "the live board after pop equals the replay of the remaining moves also in the sets that Board's == does not compare",
+    ]
+    sim_rules(ctx, facts, {
+        "L2k": ("undo record captures the pre-state before any store (shared with C04/K1)", ("undo",), "make/"),
+        "L2u": ("unmake restores squares, occupancy sets and all scalar fields (abstract board, shared with C04/K2)",
+                ("undo", "cells", "occupancy", "unmodelled"), "unmake/"),
+    })
     chainrules.push_rule(ctx, facts, "L1")
     chainrules.pop_rule(ctx, facts, "L2")
     chainrules.writers_rule(ctx, facts, "L3")
